@@ -19,10 +19,11 @@ type Opts struct {
 	Mutations   bool  // include mutated gob payloads (C08)
 	NoRawBits   bool  // exclude SetBitsExp (programs compared across builds keep it)
 	MaxIntDigit int
+	NoAccessors bool // exclude the read-only accessor steps
 }
 
 func DefaultOpts() Opts {
-	o := Opts{NVars: 5, MaxPrec: 120, GapLimit: 600, Mutations: true, MaxIntDigit: 200}
+	o := Opts{NVars: 5, MaxPrec: 120, GapLimit: 1600, Mutations: true, MaxIntDigit: 200}
 	if h.Thorough() {
 		o.MaxPrec = 1500
 		o.GapLimit = 3000
@@ -43,6 +44,10 @@ func GenInit(t *rapid.T, o Opts) []h.Spec {
 			init = append(init, s)
 		default:
 			d := h.GenDigits(t, "init.d", 60)
+			if rapid.IntRange(0, 7).Draw(t, "init.long") == 0 {
+				// dozens of words: sums and differences then go through the larger temporaries
+				d = h.GenDigitsN(t, "init.dl", rapid.IntRange(400, 1600).Draw(t, "init.dln"))
+			}
 			s := h.Spec{F: "f", D: d, E: h.GenExp(t, "init.e"), Neg: rapid.Bool().Draw(t, "init.neg"), M: h.GenMode(t, "init.m")}
 			s.P = uint(len(d) + rapid.IntRange(0, 20).Draw(t, "init.p"))
 			s.Hist = h.GenHist(t, "init.h")
@@ -83,11 +88,16 @@ func Draw(t *rapid.T, m *Machine, o Opts) Step {
 	v := func(label string) int { return rapid.IntRange(0, n-1).Draw(t, label) }
 	s := Step{Z: v("z")}
 	var pool []string
-	switch rapid.IntRange(0, 9).Draw(t, "group") {
+	switch rapid.IntRange(0, 10).Draw(t, "group") {
 	case 0, 1, 2, 3, 4:
 		pool = arithOps
 	case 5, 6:
 		pool = attrOps
+	case 10:
+		if !o.NoAccessors {
+			return drawAccessor(t, snaps, s)
+		}
+		pool = arithOps
 	default:
 		pool = setterOps
 	}
@@ -292,6 +302,49 @@ func Draw(t *rapid.T, m *Machine, o Opts) Step {
 		}
 	case "setbitsexp-own":
 		s.Exp = h.GenExp(t, "w.exp")
+	}
+	return s
+}
+
+var accessorOps = []string{"ro:int", "ro:int", "ro:int-into", "ro:int64", "ro:uint64", "ro:rat", "ro:rat-into", "ro:float64", "ro:float32", "ro:float", "ro:text", "ro:text", "ro:append",
+	"ro:format", "ro:string", "ro:gobenc", "ro:marshaltext", "ro:marshaljson", "ro:cmp", "ro:preds"}
+
+// drawAccessor draws a read-only step (conversions, formatting, encoding, comparison, predicates). Conversions whose
+// cost is linear in the exponent or the precision are only drawn for moderate operands.
+func drawAccessor(t *rapid.T, snaps []h.Snap, s Step) Step {
+	n := len(snaps)
+	s.A = []int{rapid.IntRange(0, n-1).Draw(t, "ro.x")}
+	x := snaps[s.A[0]]
+	s.Op = rapid.SampledFrom(accessorOps).Draw(t, "ro.op")
+	moderate := x.Form != model.Finite || x.RawExp <= 3000 && x.RawExp >= -3000
+	if !moderate {
+		switch s.Op {
+		case "ro:int", "ro:int-into", "ro:rat", "ro:rat-into", "ro:float", "ro:int64", "ro:uint64":
+			s.Op = "ro:preds"
+		}
+	}
+	switch s.Op {
+	case "ro:float":
+		s.FP = uint(rapid.SampledFrom([]int{1, 24, 53, 64, 100, 200}).Draw(t, "ro.fp"))
+	case "ro:text", "ro:append":
+		verbs := "eEgGpb"
+		if moderate {
+			verbs += "ff"
+		}
+		if x.Prec > 5000 {
+			verbs = "eEgGp"
+		}
+		s.S = string(verbs[rapid.IntRange(0, len(verbs)-1).Draw(t, "ro.verb")])
+		s.Exp = int64(rapid.IntRange(-1, 40).Draw(t, "ro.prec"))
+	case "ro:format":
+		verbs := "eEgGv"
+		if moderate {
+			verbs += "fF"
+		}
+		s.S = "%" + rapid.SampledFrom([]string{"", "+", " ", "-", "0", "+0", "-0"}).Draw(t, "ro.flags") + rapid.SampledFrom([]string{"", "12", "30"}).Draw(t, "ro.width") +
+			rapid.SampledFrom([]string{"", ".0", ".3", ".20"}).Draw(t, "ro.fprec") + string(verbs[rapid.IntRange(0, len(verbs)-1).Draw(t, "ro.fverb")])
+	case "ro:cmp":
+		s.A = append(s.A, rapid.IntRange(0, n-1).Draw(t, "ro.y"))
 	}
 	return s
 }
